@@ -30,8 +30,9 @@ INDEP = {
     "T18": {"k": 1},
     "T7p": {"i": 0},
     "T21": {"i": 0},
+    "T23": {"j": 1},
 }
-REDUCED = {"T4": ["i", "j"], "T5": ["i", "j"], "T8": ["i"], "T12": ["i", "j"], "T10": ["j"], "T18": ["i"], "T21": ["j"]}
+REDUCED = {"T4": ["i", "j"], "T5": ["i", "j"], "T8": ["i"], "T12": ["i", "j"], "T10": ["j"], "T18": ["i"], "T21": ["j"], "T23": ["i"], "T24": ["i", "j"]}
 
 
 NMODES = 7
@@ -135,7 +136,7 @@ def reject(tid, kind, idx, n0, n1, n2, *vals):
         p = tmpl.make_pipeline(t.funcs, log)
     inputs = t.inputs(n, v)
     if kind == "reduced":
-        fixed = {REDUCED[tid][0]: 0}
+        fixed = {REDUCED[tid][L.concretize(idx, 0, len(REDUCED[tid]) - 1)]: 0}  # every reduced axis of the template
     elif kind == "unknown":
         fixed = {"zz": 0}
     else:
@@ -254,8 +255,8 @@ def obligations(tier):
                     )
                 )
     for tid in REDUCED:
-        obs.append(Ob(f"reject_reduced_{tid}", [("idx", "int")] + MAP_PARAMS, ["idx == 0"] + tmpl.size_pre(T[tid], 2),
-                      f"H.reject({tid!r}, 'reduced', idx, {MAP_ARGS})", timeout=120, bounds=f"{tid}: fixing the reduced axis {REDUCED[tid][0]}"))  # fmt: skip
+        obs.append(Ob(f"reject_reduced_{tid}", [("idx", "int")] + MAP_PARAMS, [f"0 <= idx < {len(REDUCED[tid])}"] + tmpl.size_pre(T[tid], 2),
+                      f"H.reject({tid!r}, 'reduced', idx, {MAP_ARGS})", timeout=120, bounds=f"{tid}: fixing a reduced axis (each of {REDUCED[tid]})"))  # fmt: skip
     for tid in ("T1", "T3", "T10"):
         obs.append(Ob(f"reject_unknown_{tid}", [("idx", "int")] + MAP_PARAMS, ["idx == 0"] + tmpl.size_pre(T[tid], 2),
                       f"H.reject({tid!r}, 'unknown', idx, {MAP_ARGS})", timeout=120, bounds=f"{tid}: unknown axis name"))  # fmt: skip
